@@ -18,7 +18,7 @@ import (
 
 func main() {
 	seed := flag.Uint64("seed", 1, "")
-	mode := flag.String("mode", "smoke", "")
+	mode := flag.String("mode", "c01", "c01 | smoke | smoke2")
 	out := flag.String("out", "", "")
 	blocks := flag.Int("blocks", 15, "blocks per history (c01)")
 	runs := flag.Int("runs", 1, "histories per run (c01)")
